@@ -105,6 +105,77 @@ func apiProbes() []probe {
 			var f func()
 			return nject.Sequence("p", make(chan int), map[string]int{}, nject.Memoize(func(m map[string]int) T0 { return T0{} }), func(T0, chan int) {}).Bind(&f, nil)
 		}},
+		{"Memoize slice input from invoke", func() error {
+			var f func([]int) string
+			err := nject.Sequence("p", nject.Memoize(func(x []int) string { return "a" }), func(s string) string { return s }).Bind(&f, nil)
+			if err != nil {
+				return err
+			}
+			f([]int{1})
+			f([]int{1})
+			return nil
+		}},
+		{"Memoize any input holding a slice (run)", func() error {
+			var f func(any) string
+			err := nject.Sequence("p", nject.Memoize(func(x any) string { return "a" }), func(s string) string { return s }).Bind(&f, nil)
+			if err != nil {
+				return err
+			}
+			f([]int{1})
+			f(map[string]int{})
+			f(3)
+			return nil
+		}},
+		{"Memoize any input holding a slice (static)", func() error {
+			var f func() string
+			err := nject.Sequence("p", nject.Cacheable(func() any { return []int{1} }), nject.Memoize(func(x any) string { return "a" }), func(s string) string { return s }).Bind(&f, nil)
+			if err != nil {
+				return err
+			}
+			f()
+			f()
+			return nil
+		}},
+		{"Memoize struct with any field holding a map", func() error {
+			type S struct{ X any }
+			var f func(S) string
+			err := nject.Sequence("p", nject.Memoize(func(x S) string { return "a" }), func(s string) string { return s }).Bind(&f, nil)
+			if err != nil {
+				return err
+			}
+			f(S{X: map[string]int{}})
+			f(S{X: 1})
+			return nil
+		}},
+		{"Memoize struct with any field holding a map (init)", func() error {
+			type S struct{ X any }
+			var f func() string
+			var ini func(S)
+			err := nject.Sequence("p", nject.Memoize(func(x S) string { return "a" }), func(s string) string { return s }).Bind(&f, &ini)
+			if err != nil {
+				return err
+			}
+			ini(S{X: map[string]int{}})
+			f()
+			return nil
+		}},
+		{"Memoize func-typed input", func() error {
+			var f func(func()) string
+			err := nject.Sequence("p", nject.Memoize(func(x func()) string { return "a" }), func(s string) string { return s }).Bind(&f, nil)
+			if err != nil {
+				return err
+			}
+			f(func() {})
+			return nil
+		}},
+		{"Provide(name, nil)", func() error {
+			var f func()
+			return nject.Sequence("p", nject.Provide("n", nil), func() {}).Bind(&f, nil)
+		}},
+		{"annotation of nil", func() error {
+			var f func()
+			return nject.Sequence("p", nject.Required(nil), nject.Cacheable(nil), func() {}).Bind(&f, nil)
+		}},
 		{"DetailedError(nil)", func() error { _ = nject.DetailedError(nil); return nil }},
 		{"DetailedError(foreign)", func() error { _ = nject.DetailedError(fmt.Errorf("x")); return nil }},
 	}
